@@ -511,6 +511,7 @@ func checkC05(c *Ctx) {
 	c03Handover(c)     // foreign bytes at every point of the hand-over, incl. while the answer is on its way to the socket
 	gatedDecrypt(c, "C05")
 	cutInsideFrame(c, "C05")
+	forgedFrameOnConnection(c, "C05")
 	c03PlainFraming(c) // where a plaintext request ends decides what an adversary can glue behind the pair-verify finish
 	scs := c05Scenarios(c)
 	const block = 2000
